@@ -1,7 +1,7 @@
 (* C31 - Serialised and pickled objects reflect current state and round-trip: the composite-key encoding.
    Property theorems only.  reduce_composite_pk / encode_part are re-translated from /repo's Bag._reduce_composite_pk on every run
    (Gen/C31Reduce.v); key parts are modelled by their str() images, lists of arbitrary code points (',', '*', '\' included). *)
-Require Import PonyV.Base.PyBase PonyV.Model.C31Codec PonyV.Gen.C31Reduce PonyV.Proofs.C31Codec PonyV.Model.C31Bag PonyV.Proofs.C31Bag PonyV.Model.C31Flush PonyV.Proofs.C31Flush PonyV.Model.C31Pickle PonyV.Proofs.C31Pickle.
+Require Import PonyV.Base.PyBase PonyV.Model.C31Codec PonyV.Gen.C31Reduce PonyV.Proofs.C31Codec PonyV.Model.C31Bag PonyV.Proofs.C31Bag PonyV.Model.C31Flush PonyV.Proofs.C31Flush PonyV.Model.C31Pickle PonyV.Proofs.C31Pickle PonyV.Model.C31ToJson PonyV.Proofs.C31ToJson.
 
 (* an explicit decoder reads every encoded key back *)
 Theorem C31_pk_decode : forall pk : list (list Z), pk <> [] -> decode (reduce_composite_pk pk) = pk.
@@ -80,6 +80,26 @@ Theorem C31_pickle_set : forall k items ref_loaded here,
   unpickle_set k [] items ref_loaded = items /\ unpickle_set k here here ref_loaded = here.
 Proof. exact set_roundtrip_both. Qed.
 Print Assumptions C31_pickle_set.
+
+(* Database.to_json (model of its worklist, Model/C31ToJson.v): the "objects" section has an entry for every instance of the "data"
+   section, and -- the worklist having run empty -- for every instance referred to through an included relationship attribute, so
+   every reference can be resolved; the sections are data, objects and, unless with_schema=False, schema_hash plus (when the caller's
+   hash does not match) schema *)
+Theorem C31_to_json_roots : forall fuel succ roots, incl roots (snd (to_json_objects fuel succ roots)).
+Proof. exact to_json_roots. Qed.
+Print Assumptions C31_to_json_roots.
+
+Theorem C31_to_json_closed : forall fuel succ roots, fst (to_json_objects fuel succ roots) = [] ->
+  forall o, In o (snd (to_json_objects fuel succ roots)) -> forall x, In x (succ o) -> In x (snd (to_json_objects fuel succ roots)).
+Proof. exact to_json_closed. Qed.
+Print Assumptions C31_to_json_closed.
+
+Theorem C31_to_json_sections : forall with_schema hash_matches,
+  In SData (to_json_sections with_schema hash_matches) /\ In SObjects (to_json_sections with_schema hash_matches) /\
+  (In SSchemaHash (to_json_sections with_schema hash_matches) <-> with_schema = true) /\
+  (In SSchema (to_json_sections with_schema hash_matches) <-> with_schema = true /\ hash_matches = false).
+Proof. exact to_json_sections_spec. Qed.
+Print Assumptions C31_to_json_sections.
 
 (* non-vacuity: ('a*', ',c') and ('a', '*,c') -- equal after naive joining -- get different keys, and decode back *)
 Example C31_nonvacuous :
